@@ -1,6 +1,6 @@
 (* Driver.v — entry points of the extracted model: one function per kind of
    case the harness sends.  All rendering is done here, in Coq. *)
-From XP Require Import Base F64 Doc Ast Scan Parse Build Hash Eval Api Render.
+From XP Require Import Base F64 Doc Ast Scan Parse Build Hash Eval Api Render Cache.
 Open Scope nat_scope.
 Open Scope string_scope.
 
@@ -125,3 +125,9 @@ Definition run_num (what : string) (arg : string) : string :=
   else "?".
 Definition run_fmt (bits : N) : string :=
   "S:" ++ esc (xpath_number_string (of_bits (Z.of_N bits))).
+
+(* sequential cache histories (Cache.run_cache): "value/len/reset;..." *)
+Definition run_cache_str (cap : nat) (ks : list nat) : string :=
+  join ";" (map (fun '(r, len, rs) =>
+                   (match r with Some v => itoa v | None => "E" end) ++ "/" ++ itoa len ++ "/" ++ itoa rs)
+                (run_cache cap ks)).
